@@ -422,3 +422,62 @@ def check_reset_chain(chk, ix):
         else:
             chk.ok("R5", {"class": ci.name, "resets": sorted(fields), "resets children": list(children)}, nontrivial_key=spec)
     chk.require_instances("R5", 5)
+
+
+WHAT["R7"] = ("mark_skipped() leaves every kind of element with the status skipped - also one that has no children (an outline whose "
+              "Examples have no rows, a scenario without steps, an empty feature or rule): its own assertion must hold, name selection "
+              "and user hooks call it on such elements")
+
+
+def check_mark_skipped_postcondition(chk, ix):
+    """R7: mark_skipped() evaluated on an element of every class with no children and with two untested children."""
+    chk.rule("R7", WHAT["R7"])
+    specs = [("behave.model:Scenario", "steps"), ("behave.model:ScenarioOutline", "_scenarios"),
+             ("behave.model:Feature", "run_items"), ("behave.model:Rule", "run_items")]
+    for spec, child_field in specs:
+        ci = ix.cls(spec)
+        f = ci.lookup("mark_skipped")
+        if f is None:
+            raise AnalysisError("anchor missing: %s.mark_skipped" % spec)
+        for n_children in (0, 2):
+            def child_skip(it_, st_, a, k, n):
+                st_.wobj(a[0]).fields["status"] = S("skipped")
+                return [(st_, "val", None)]
+            stubs = {"ChildStub.skip": child_skip, "ChildStub.mark_skipped": child_skip, "logging.getLogger": lambda it_, st_, a, k, n: [(st_, "val", Top("logger", False))]}
+            it = Interp(ix, stubs=stubs, name=ci.name + ".mark_skipped")
+            it.list_cap = 100
+            it.int_sat = 100
+            it.track_len = True
+            st = State()
+            st.frames = []
+            kids = [st.alloc(HObj("ChildStub", {"status": S("untested"), "should_skip": False}, open=True, label="child %d" % (i + 1)))
+                    for i in range(n_children)]
+
+            def lst(items=()):
+                return st.alloc(HObj("list", kind="list", items=list(items)))
+            fields = {"_cached_status": S("untested"), "should_skip": False, "skip_reason": None, "hook_failed": False, "was_dry_run": False,
+                      "name": "x", "tags": (), "background": None, "_background_steps": lst(), "_use_background": True,
+                      "steps": lst(), "_scenarios": lst(), "examples": lst(), "run_items": lst(), "scenarios": lst(), "rules": lst(),
+                      "type": ci.name.lower(), "_row": None, "parent": None, "feature": None}
+            fields[child_field] = lst(kids)
+            if ci.name in ("Feature", "Rule"):
+                fields["scenarios"] = fields["run_items"]
+            me = st.alloc(HObj(ci, fields, label=ci.name))
+            try:
+                outs = it.call_function(st, f, [], {}, None, self_val=me)
+            except AnalysisError as e:
+                raise AnalysisError("%s.mark_skipped not evaluable (%d children): %s" % (ci.name, n_children, e))
+            chk.absorb(it)
+            chk.instance("R7")
+            bad = [(k, v) for (_, k, v) in outs if k != "val"]
+            label = "%s with %s" % (ci.name, "no children" if not n_children else "%d untested children" % n_children)
+            if not outs:
+                raise AnalysisError("%s.mark_skipped: no outcome" % ci.name)
+            if bad:
+                chk.fail(Finding("R7", f.fullname + "[as %s]" % ci.name, "%s -> %s" % (label, bad[0][1]),
+                                 "mark_skipped() on a %s raises %s: the element is not left with the status skipped (name selection, "
+                                 "file:LINE selection and user hooks call it on every element they exclude)" % (label, bad[0][1]),
+                                 file=f.file, line=f.lineno, stmt="def mark_skipped"))
+            else:
+                chk.ok("R7", {"element": label, "mark_skipped": "returns, status skipped"}, nontrivial_key=label)
+    chk.require_instances("R7", 8)
